@@ -6,6 +6,7 @@ package main
 // (algorithm, bytes, length): nothing about SHA-256 etc. is assumed beyond being functions.
 
 import (
+	"sort"
 	"fmt"
 	"go/types"
 	"strings"
@@ -119,8 +120,13 @@ func (tr *FnTr) ghostSum(id *Term, x ssa.Value, prefix *Val) Val {
 	// size by algorithm
 	size := tr.vc.Fresh("dg_size", SInt)
 	var cs []*Term
-	for a, s := range digestSize {
-		cs = append(cs, Implies(Eq(alg, Int(a)), Eq(size, Int(s))))
+	var algs []int64
+	for a := range digestSize {
+		algs = append(algs, a)
+	}
+	sort.Slice(algs, func(i, j int) bool { return algs[i] < algs[j] })
+	for _, a := range algs {
+		cs = append(cs, Implies(Eq(alg, Int(a)), Eq(size, Int(digestSize[a]))))
 	}
 	cs = append(cs, Implies(Ge(alg, Int(algTagged)), Eq(size, Int(32))))
 	cs = append(cs, And(Le(Int(1), size), Le(size, Int(64))))
